@@ -26,11 +26,12 @@ TECHNIQUE = ("exact probabilistic enumeration: all answer classes of every unifo
              "compared with the law declared by vrnt_xoprob / the Haldane map function; boundary answers (rnd == xoprob, 0, "
              "1-2^-53) decide strictness of the comparison")
 RULE = ("one execution = one answer class for every uniform(0,1) cell of one call (mat_meiosis/dense_meiosis/mat_dh/dense_dh/"
-        "mat_mate/dense_cross, or mate() of one of the 7 protocols), weight = product of class probabilities; per configuration "
+        "mat_mate/dense_cross, mate() of one of the 7 protocols, or DenseExpectedMaximumBreedingValueMatrix.from_gmod), weight = product of class probabilities; per configuration "
         "ALL classes are run (2^cells when 0<xoprob<1), so the weights sum to exactly 1. gamete layer: all xoprob vectors of "
         "length <= m over a 5-value alphabet {0,a,b,1/2,1}, 1 and 2 gametes; boundary layer: weight-0 answers (==threshold, 0.0, "
         "largest double below 1) in lock-step with the declared flags; map layer: real interp_xoprob(StandardGeneticMap, "
-        "Haldane|Kosambi); cross layer: end-to-end progeny law of every protocol against the composed reference law. "
+        "Haldane|Kosambi) incl. non-consecutive chromosome labels and matrices already placed on another map; EMBV layer: the DH gametes "
+        "simulated inside from_gmod (global generator scripted) for every het/hom pattern of 3 loci; cross layer: end-to-end progeny law of every protocol against the composed reference law. "
         "non-trivial = a configuration with at least one 0<xoprob<1 cell; distinct by digest of (configuration, answers)")
 ASSUME = ["numpy's uniform(0,1) is uniform on the multiples of 2^-53 in [0,1): P(rnd < p) = p for every double p that is a "
           "multiple of 2^-53, and differs from p by < 2^-53 otherwise (class weights use the exact value of the double p)",
@@ -384,19 +385,39 @@ def map_case(ctx, cs, answers=None):
     case0 = dict(cs, answers=None)
     st = {}
 
+    def mkmap(gvals, kind):
+        if kind == "Extended":
+            return ExtendedGeneticMap(vrnt_chrgrp=numpy.array(M["chr"], dtype="int64"), vrnt_phypos=numpy.array(M["phy"], dtype="int64"),
+                                      vrnt_stop=numpy.array(M["phy"], dtype="int64"), vrnt_genpos=numpy.array(gvals, dtype="float64"))
+        return StandardGeneticMap(vrnt_chrgrp=numpy.array(M["chr"], dtype="int64"), vrnt_phypos=numpy.array(M["phy"], dtype="int64"),
+                                  vrnt_genpos=numpy.array(gvals, dtype="float64"))
+
     def build():
-        if cs.get("gmap", "Standard") == "Extended":
-            gm = ExtendedGeneticMap(vrnt_chrgrp=numpy.array(M["chr"], dtype="int64"), vrnt_phypos=numpy.array(M["phy"], dtype="int64"),
-                                    vrnt_stop=numpy.array(M["phy"], dtype="int64"), vrnt_genpos=numpy.array(gen, dtype="float64"))
-        else:
-            gm = StandardGeneticMap(vrnt_chrgrp=numpy.array(M["chr"], dtype="int64"), vrnt_phypos=numpy.array(M["phy"], dtype="int64"),
-                                    vrnt_genpos=numpy.array(gen, dtype="float64"))
+        kind = cs.get("gmap", "Standard")
+        gm = mkmap(gen, kind)
         m = len(M["mchr"])
         geno, decode = coded_geno(2, m, cs["seed"])
+        pre = cs.get("pre")
+        kw = {}
+        if pre == "construct":
+            # the matrix already carries (other) genetic positions and crossover probabilities from its construction
+            kw = dict(vrnt_genpos=numpy.array([0.07 + 0.9 * j for j in range(m)], dtype="float64"),
+                      vrnt_xoprob=numpy.array([0.3] * m, dtype="float64"))
         pg = DensePhasedGenotypeMatrix(geno, vrnt_chrgrp=numpy.array(M["mchr"], dtype="int64"),
-                                       vrnt_phypos=numpy.array(M["mphy"], dtype="int64"))
+                                       vrnt_phypos=numpy.array(M["mphy"], dtype="int64"), **kw)
         pg.group_vrnt()
-        pg.interp_xoprob(gm, mapfn)
+        if pre in ("mapA", "mapA-otherfn", "genposA"):
+            # history: first placed on a different map A (same markers, other genetic positions, the other map class)
+            genA = [2.5 * g + 0.03 * i for i, g in enumerate(gen)]
+            gmA = mkmap(genA, "Extended" if kind == "Standard" else "Standard")
+            if pre == "genposA":
+                pg.interp_genpos(gmA)
+            else:
+                other = "KosambiMapFunction" if cs["mapfn"] == "HaldaneMapFunction" else "HaldaneMapFunction"
+                fnA = _import(f"pybrops.popgen.gmap.{other}", other)() if pre == "mapA-otherfn" else mapfn
+                pg.interp_xoprob(gmA, fnA)
+            st["after_A"] = (pg.vrnt_genpos.copy(), None if pg.vrnt_xoprob is None else pg.vrnt_xoprob.copy())
+        pg.interp_xoprob(gm, mapfn)          # the map passed LAST is the declared one
         st.update(pg=pg, geno=geno, decode=decode, m=m)
         # declared positions: linear interpolation / extrapolation of the map, per chromosome (reference, in floats)
         gpos = []
@@ -456,11 +477,13 @@ def map_case(ctx, cs, answers=None):
             key = res["prov"][0]
             dist[key] = dist.get(key, 0) + ch.weight
             ctx.outcome(digest(("map", key)))
-            ctx.nontriv(digest(("map", cs["map"], cs["mapfn"], cs["fn"], cs.get("gmap"), cs.get("labels", 0), case["answers"])))
+            ctx.nontriv(digest(("map", cs["map"], cs["mapfn"], cs["fn"], cs.get("gmap"), cs.get("labels", 0), cs.get("pre"), case["answers"])))
         else:
             complete = False
-    ctx.state(digest(("map", cs["map"], cs["mapfn"], cs["fn"], cs.get("gmap"), cs.get("labels", 0))))
+    ctx.state(digest(("map", cs["map"], cs["mapfn"], cs["fn"], cs.get("gmap"), cs.get("labels", 0), cs.get("pre"))))
     ctx.count("map:configs")
+    if cs.get("pre"):
+        ctx.count(f"map:pre-existing-positions:{cs['pre']}")
     if len(st["starts"]) > 1 and any(b - a != 1 for a, b in zip(sorted(set(M["mchr"])), sorted(set(M["mchr"]))[1:])):
         ctx.count(f"map:non-consecutive-chromosome-labels:{cs.get('gmap', 'Standard')}")
     if answers is not None or not complete:
@@ -504,6 +527,12 @@ def map_cases(tier, seed):
                         continue
                     out.append(dict(part="map", map=mi, mapfn=mf, fn="mat_meiosis", gmap=gk, labels=li, seed=seed,
                                     _cost=2 ** len(MAPS[mi]["mchr"])))
+            # matrices that already carry genetic positions / crossover probabilities (from construction, from an earlier
+            # interp_genpos or interp_xoprob on another map A, with the same or the other map function): the map passed
+            # LAST decides (all seeds)
+            for pi, pre in enumerate(("construct", "genposA", "mapA", "mapA-otherfn")):
+                out.append(dict(part="map", map=mi, mapfn=mf, fn="mat_meiosis", gmap=("Standard", "Extended")[(mi + pi) % 2],
+                                labels=(0, 1)[pi % 2], pre=pre, seed=seed, _cost=2 ** len(MAPS[mi]["mchr"])))
     return out
 
 
@@ -675,7 +704,178 @@ def cross_cases(tier, seed):
 
 
 # ============================================================================
-PARTS = {"gamete": (gamete_cases, gamete_case), "map": (map_cases, map_case), "cross": (cross_cases, cross_case)}
+# layer E: the DH simulation inside DenseExpectedMaximumBreedingValueMatrix.from_gmod (anchor; draws from global_prng)
+EMBV = "DenseExpectedMaximumBreedingValueMatrix.from_gmod:"
+LOCUS = [(0, 1), (1, 0), (0, 0), (1, 1)]        # (copy 0 allele, copy 1 allele): two heterozygous phases, two homozygotes
+
+
+def embv_case(ctx, cs, answers=None):
+    import pybrops.model.embvmat.DenseExpectedMaximumBreedingValueMatrix as EM
+    from pybrops.model.gmod.DenseAdditiveLinearGenomicModel import DenseAdditiveLinearGenomicModel
+    from pybrops.popgen.gmat.DensePhasedGenotypeMatrix import DensePhasedGenotypeMatrix
+    xop = [float(v) for v in cs["xop"]]
+    m = len(xop)
+    x = [R.F(v) for v in xop]
+    pats = cs["patterns"]                                   # per taxon: list of LOCUS indices
+    n = len(pats)
+    mat = numpy.array([[[LOCUS[k][c] for k in p] for p in pats] for c in range(2)], dtype="int8")
+    nprog = cs["nprogeny"]
+    fac = [1.0, 0.5, 3.0][cs["seed"] % 3]
+    u = numpy.array([[fac * 2.0 ** j] for j in range(m)])   # each haplotype has its own value: linkage phase is observable
+    beta0 = [0.0, -2.0, 10.0][cs["seed"] % 3]
+
+    class Recording(DenseAdditiveLinearGenomicModel):       # public-interface subclass: sees the simulated progeny
+        def gebv(self, gtobj, **kw):
+            self.seen.append(gtobj.mat.copy())
+            return super().gebv(gtobj, **kw)
+
+    chrgrp = numpy.repeat(numpy.arange(1, len(cs["layout"]) + 1), cs["layout"]).astype("int64")
+    pg = DensePhasedGenotypeMatrix(mat, vrnt_chrgrp=chrgrp, vrnt_phypos=numpy.arange(1, m + 1, dtype="int64"),
+                                   vrnt_xoprob=numpy.array(xop, dtype="float64"))
+    pg.group_vrnt()
+    mat0 = mat.copy()
+    lawx = R.pattern_law(x)
+
+    def run(ch):
+        h = MeiosisHandler(ch, xop, mode=cs.get("mode", "classes"))
+        gm = Recording(beta=numpy.array([[beta0]]), u_misc=None, u_a=u.copy(), trait=None)
+        gm.seen = []
+        old = EM.global_prng
+        EM.global_prng = ScriptedRandomState(h)             # the function draws from the library-wide generator
+        try:
+            out = EM.DenseExpectedMaximumBreedingValueMatrix.from_gmod(gm, pg, numpy.array(nprog, dtype="int64"), 1)
+            exc = None
+        except Exception as ex:
+            out, exc = None, ex
+        finally:
+            EM.global_prng = old
+        return out, exc, h, gm
+
+    def one(out, exc, h, gm, res):
+        if exc is not None:
+            raise exc
+        require(numpy.array_equal(pg.mat, mat0), EMBV + "input-mutated", "genotypes modified")
+        shapes = [d[0] for d in h.draws]
+        require(shapes == [(nprog[i], m) for i in range(n)], EMBV + "draws",
+                f"uniform() shapes {shapes}; one draw per DH gamete per marker means {[(nprog[i], m) for i in range(n)]}")
+        require(len(gm.seen) == n, EMBV + "progeny-sets", f"{len(gm.seen)} progeny sets evaluated for {n} taxa x 1 replicate")
+        gam, best = [], []
+        for i in range(n):
+            pm = gm.seen[i]
+            require(pm.shape == (2, nprog[i], m) and numpy.array_equal(pm[0], pm[1]), EMBV + "dh-progeny",
+                    f"progeny set of taxon {i}: shape {pm.shape}, doubled haploids must be homozygous")
+            vals = []
+            for r in range(nprog[i]):
+                g = tuple(int(v) for v in pm[0, r])
+                for j in range(m):
+                    require(g[j] in (int(mat[0, i, j]), int(mat[1, i, j])), EMBV + "alien-allele",
+                            f"taxon {i} progeny {r} marker {j} carries {g[j]}")
+                gam.append(g)
+                vals.append(beta0 + 2.0 * sum(float(u[j, 0]) * g[j] for j in range(m)))
+            best.append(max(vals))
+        res["key"] = tuple(gam)
+        if cs.get("mode") == "full":
+            flags = numpy.concatenate([d[2] for d in h.draws], axis=0)
+            vals_ = numpy.concatenate([d[1] for d in h.draws], axis=0)
+            row = 0
+            for i in range(n):
+                for r in range(nprog[i]):
+                    ph, exp = 0, []
+                    for j in range(m):
+                        ph ^= int(flags[row, j])
+                        exp.append(int(mat[ph, i, j]))
+                    require(tuple(exp) == gam[row], EMBV + "strict-comparison",
+                            f"taxon {i} progeny {r}: draws {vals_[row].tolist()} against the declared xoprob {xop} give gamete {exp}, "
+                            f"simulated {list(gam[row])} (taxon copies {mat[0, i].tolist()} / {mat[1, i].tolist()})")
+                    row += 1
+        un = numpy.asarray(out.unscale() if hasattr(out, "unscale") else out.mat * out.scale + out.location, dtype=float)
+        if un.shape == (n, 1) and numpy.all(numpy.isfinite(un)) and len(set(best)) > 1:
+            from ..core import close
+            require(close(un[:, 0], best), EMBV + "value", f"EMBV {un[:, 0].tolist()} but the best simulated progeny are worth {best}")
+            res["value-checked"] = True
+
+    dist = {}
+    complete = True
+    for ch, (out, exc, h, gm) in _drive(run, answers, cs.get("bound")):
+        ctx.evaluations += 1
+        ctx.transitions += 1
+        case = dict(cs, answers=_trim(ch.taken))
+        res = {}
+        ok = ctx.guard(lambda: one(out, exc, h, gm, res), case=case, sig_prefix=EMBV)
+        if ok:
+            ctx.traces += 1
+            dist[res["key"]] = dist.get(res["key"], 0) + ch.weight
+            ctx.outcome(digest(("embv", cs["patterns"], res["key"])))
+            ctx.nontriv(digest(("embv", cs["patterns"], cs["xop"], nprog, cs.get("mode"), case["answers"])))
+            if res.get("value-checked"):
+                ctx.count("embv:value-checked")
+        else:
+            complete = False
+        if ctx.evaluations in (40, 900) and ok:
+            ctx.sample(dict(case, weight=str(ch.weight), taxa_copies=[[mat[c, i].tolist() for c in range(2)] for i in range(n)],
+                            dh_gametes=[list(g) for g in res["key"]]))
+    ctx.state(digest(("embv", cs["patterns"], cs["xop"], nprog, cs.get("mode"))))
+    ctx.count("embv:configs")
+    for p in pats:
+        het = [k < 2 for k in p]
+        if not het[0] and any(het):
+            ctx.flag("embv:homozygous-first-marker")
+        if any(het[a] and het[b] and not all(het[a:b + 1]) for a in range(m) for b in range(a + 2, m)):
+            ctx.flag("embv:homozygous-between-heterozygous")
+        if all(het):
+            ctx.flag("embv:all-heterozygous")
+    if cs.get("mode") == "full" or answers is not None or not complete:
+        return
+
+    def law():
+        what = f"from_gmod(taxa {[[mat[c, i].tolist() for c in range(2)] for i in range(n)]}, nprogeny={nprog}, xoprob={xop})"
+        tot = sum(dist.values())
+        require(tot == 1, "harness:weights", f"{what}: class weights sum to {tot}")
+        owner = [i for i in range(n) for _ in range(nprog[i])]
+        margs = check_product(dist, len(owner), EMBV + "gametes-not-independent", what)
+        for gi, mk in enumerate(margs):
+            i = owner[gi]
+            exp = R.gametes((tuple(int(v) for v in mat[0, i]), tuple(int(v) for v in mat[1, i])), lawx)
+            if mk != exp:
+                bad = next(k for k in sorted(set(mk) | set(exp)) if mk.get(k, 0) != exp.get(k, 0))
+                require(False, EMBV + "gamete-law",
+                        f"{what}: DH gamete {gi} (taxon {i}, copies {mat[0, i].tolist()} / {mat[1, i].tolist()}): P(gamete {list(bad)}) = "
+                        f"{mk.get(bad, 0)} (= {float(mk.get(bad, 0))!r}); the declared vrnt_xoprob gives {exp.get(bad, 0)} "
+                        f"(= {float(exp.get(bad, 0))!r})")
+    if ctx.guard(law, case=dict(cs, answers=None), sig_prefix=EMBV):
+        ctx.count("exact-laws-verified")
+        ctx.count("exact-probabilities-compared", len(dist))
+
+
+def embv_cases(tier, seed):
+    T = tier == "thorough"
+    A = xo_alphabet(seed)
+    q = q_value(seed)
+    X = [((3,), [0.5, q, A[1]]), ((2, 1), [0.5, A[2], 0.5]), ((3,), [A[1], 1.0, 0.5])]
+    out = []
+    pats = list(itertools.product(range(4), repeat=3))          # every het/hom pattern of 3 loci (both phases, both alleles)
+    for pi, p in enumerate(pats):
+        partner = pats[(pi * 7 + 3) % len(pats)]
+        for xi, (lay, xop) in enumerate(X):
+            if not T and xi != pi % 3 and not (xi == 0 and p[0] >= 2):
+                continue
+            out.append(dict(part="embv", patterns=[list(p), list(partner)], layout=list(lay), xop=xop, nprogeny=[1, 1], seed=seed,
+                            _cost=64))
+    # two DH per taxon (independent gametes), homozygous-first / homozygous-between / all heterozygous / all homozygous
+    for p in ([2, 0, 1], [0, 3, 1], [0, 2, 0], [1, 0, 1], [3, 2, 3], [0, 1, 2]):
+        for lay, xop in (X if T else X[:2]):
+            out.append(dict(part="embv", patterns=[p, [0, 0, 0]], layout=list(lay), xop=xop, nprogeny=[2, 1], seed=seed, _cost=512))
+    # weight-0 boundary answers in lock-step with the DECLARED xoprob (strict comparison, per marker, per gamete)
+    for p in ([2, 0, 1], [0, 3, 1], [0, 2, 0], [1, 1, 0]):
+        for lay, xop in X:
+            out.append(dict(part="embv", patterns=[p, [3, 3, 2]], layout=list(lay), xop=xop, nprogeny=[1, 1], mode="full", bound=2,
+                            seed=seed, _cost=200))
+    return out
+
+
+# ============================================================================
+PARTS = {"gamete": (gamete_cases, gamete_case), "map": (map_cases, map_case), "cross": (cross_cases, cross_case),
+         "embv": (embv_cases, embv_case)}
 
 
 def _chunks(cases, nshards):
@@ -700,6 +900,8 @@ def shards(tier, seed):
         out.append(("gamete", ch))
     for ch in _chunks(map_cases(tier, seed), 12 if T else 8):
         out.append(("map", ch))
+    for ch in _chunks(embv_cases(tier, seed), 16 if T else 8):
+        out.append(("embv", ch))
     big = sorted(cross_cases(tier, seed), key=lambda c: -c["_cost"])
     for ch in _chunks(big, 48 if T else 24):
         out.append(("cross", ch))
@@ -746,12 +948,18 @@ def finalize(ctx, tier, seed):
     assert c.get("map:configs", 0) > 0
     for gk in ("Standard", "Extended"):
         assert c.get(f"map:non-consecutive-chromosome-labels:{gk}", 0) > 0, gk
+    for pre in ("construct", "genposA", "mapA", "mapA-otherfn"):
+        assert c.get(f"map:pre-existing-positions:{pre}", 0) > 0, pre
+    assert c.get("embv:configs", 0) > 0
+    for f in ("embv:homozygous-first-marker", "embv:homozygous-between-heterozygous", "embv:all-heterozygous"):
+        assert f in ctx.flags, f
     for f in ("xoprob-0", "xoprob-half", "xoprob-1", "boundary-layer", "two-gametes", "two-chromosomes"):
         assert f in ctx.flags, f
     assert c.get("boundary:weight-0-answers-exercised", 0) > 0
     if ctx.violations:
         return      # the guards below say "a clean verdict is not vacuous"; a run with violations is not a clean verdict
     assert c.get("map:haldane-pairs-verified", 0) > 0
+    assert c.get("embv:value-checked", 0) > 0
     assert c.get("exact-laws-verified", 0) > 100
     assert ctx.traces == ctx.evaluations
     assert len(ctx.outcomes) > 100, len(ctx.outcomes)
